@@ -260,6 +260,52 @@ pub mod spec {
         }
     }
 
+    /// C12: what `--help` has to list for an item: its (first) name, metavariable, help text, environment variable
+    pub open spec fn opt_ref<'a>(o: &'a Option<Doc>) -> Option<&'a Doc> {
+        match o { Some(d) => Some(d), None => None }
+    }
+    pub open spec fn help_item_of<'a>(item: &'a Item) -> HelpItem<'a> {
+        match item {
+            Item::Positional { metavar, help } => HelpItem::Positional { metavar: *metavar, help: opt_ref(help) },
+            Item::Command { name, short, help, meta, info } => HelpItem::Command { name: *name, short: *short, help: opt_ref(help), meta: &**meta },
+            Item::Flag { name, env, help, shorts } => HelpItem::Flag { name: *name, env: *env, help: opt_ref(help) },
+            Item::Argument { name, metavar, env, help, shorts } => HelpItem::Argument { name: *name, metavar: *metavar, env: *env, help: opt_ref(help) },
+            Item::Any { metavar, anywhere, help } => HelpItem::Any { metavar: metavar, anywhere: *anywhere, help: opt_ref(help) },
+        }
+    }
+    /// a help entry that stands for an item (as opposed to group / block decorations)
+    pub open spec fn is_leaf(h: HelpItem) -> bool {
+        h is Any || h is Positional || h is Command || h is Flag || h is Argument
+    }
+    /// the entries of a help item list that stand for items, in order
+    pub open spec fn strip(s: Seq<HelpItem>) -> Seq<HelpItem>
+        decreases s.len(),
+    {
+        if s.len() == 0 { Seq::empty() } else { strip(s.drop_last()) + (if is_leaf(s.last()) { seq![s.last()] } else { Seq::empty() }) }
+    }
+    pub open spec fn helpless_positional(i: Item) -> bool {
+        i is Positional && i->Positional_help is None
+    }
+    /// C12 "lists every item a user can pass ... and lists nothing else": every item of the tree except a positional
+    /// without help text, in tree order; `hide` (= Meta::Skip) contributes nothing; usage-only wrappers are transparent
+    pub open spec fn leaves<'a>(m: &'a Meta) -> Seq<HelpItem<'a>>
+        decreases m, 1int,
+    {
+        match m {
+            Meta::And(xs) | Meta::Or(xs) => leaves_upto(m, xs.len() as int),
+            Meta::Adjacent(x) | Meta::Subsection(x, _) | Meta::Suffix(x, _) | Meta::CustomUsage(x, _) | Meta::Required(x) | Meta::Optional(x) | Meta::Many(x) | Meta::Strict(x) => leaves(&**x),
+            Meta::Item(i) => if helpless_positional(**i) { Seq::empty() } else { seq![help_item_of(&**i)] },
+            Meta::Skip => Seq::empty(),
+        }
+    }
+    pub open spec fn leaves_upto<'a>(m: &'a Meta, n: int) -> Seq<HelpItem<'a>>
+        decreases m, 0int, n,
+        when *m is And || *m is Or
+    {
+        let xs = meta_children(*m);
+        if n <= 0 || n > xs.len() { Seq::empty() } else { leaves_upto(m, n - 1) + leaves(&xs[n - 1]) }
+    }
+
     /// both ledgers still have item j
     pub open spec fn both_present(a: State, b: State, j: int) -> bool {
         0 <= j < a.item_state.len() && j < b.item_state.len() && present(a.item_state[j]) && present(b.item_state[j])
@@ -704,6 +750,12 @@ pub mod lemmas {
         if s < e { lemma_count_mono(l1, l2, s, e - 1); }
     }
 
+    pub broadcast proof fn lemma_strip_push(s: Seq<HelpItem>, x: HelpItem)
+        ensures #[trigger] strip(s.push(x)) == strip(s) + (if is_leaf(x) { seq![x] } else { Seq::empty() }),
+    {
+        assert(s.push(x).drop_last() =~= s);
+    }
+
     /// marking conflicts keeps the ledger well formed and consumption monotone
     pub proof fn lemma_conflicts_saved(pre: State, w: State, l: State, win: usize, out: State)
         requires pre.wf(), w.wf(), step(pre, w), conflicts_saved(w, l, win, out),
@@ -723,6 +775,7 @@ pub mod lemmas {
         lemma_count_update,
         lemma_count_witness,
         axiom_item_state_eq,
+        lemma_strip_push,
     }
 }
 
@@ -769,7 +822,7 @@ pub mod real {
 //@@ end
 
 //@@ type src/item.rs | enum ShortLong
-//@@ unit item.ShortLong tags=
+//@@ unit item.ShortLong tags= derive_copy
 //@@ end
 
 //@@ type src/item.rs | enum Item
@@ -1962,6 +2015,50 @@ verif_it:
                         (*self is And || *self is Or) && meta_children(*self) == xs@,
                         flags@ == old(flags)@ + shorts_upto(*self, verif_it.index@ as int).0,
                         args@ == old(args)@ + shorts_upto(*self, verif_it.index@ as int).1,
+//@@ end
+
+
+// ---- help item collection (C12)
+//@@ type src/meta_help.rs | enum HiTy
+//@@ unit meta_help.HiTy tags= derive_copy derive_eq
+//@@ end
+
+//@@ type src/meta_help.rs | enum HelpItem
+//@@ unit meta_help.HelpItem tags= derive_copy
+//@@ end
+
+//@@ type src/meta_help.rs | struct HelpItems
+//@@ unit meta_help.HelpItems tags=
+//@@ end
+
+
+//@@ fn src/meta_help.rs | impl From for HelpItem | fn from
+//@@ unit meta_help.HelpItem.from tags=C12 inherent
+//@@ ret r
+//@@ spec
+        ensures r == help_item_of(item), is_leaf(r), // #name_metavar_help_and_env_are_the_items
+//@@ end
+
+impl Meta {
+    /// assumed (its body passes a fn item to find_map, which Verus cannot read): None only for a tree without any item
+    #[verifier::external_body]
+    pub fn peek_front_ty(&self) -> (r: Option<HiTy>)
+        ensures r is None ==> leaves(self).len() == 0,
+    { unimplemented!() }
+}
+
+//@@ fn src/meta_help.rs | impl HelpItems | fn append_meta | fn go
+//@@ unit meta_help.append_meta.go tags=C12,C04 loops=1
+//@@ spec
+        ensures
+            strip(final(hi).items@) == strip(old(hi).items@) + leaves(meta), // #lists_every_item_once_in_order_and_nothing_else
+        decreases meta,
+//@@ insert after 1 `for x in`
+verif_it:
+//@@ loop 1
+                        invariant
+                            (*meta is And || *meta is Or) && meta_children(*meta) == xs@,
+                            strip(hi.items@) == strip(old(hi).items@) + leaves_upto(meta, verif_it.index@ as int),
 //@@ end
 
 // ---- adjacent groups (C19)
